@@ -854,6 +854,72 @@ static void op_runshared(Cur &c, Out &o)
 #undef RUNS
 }
 
+// ------------------------------------------------------------------------------ initf: initialisers on a scripted stream
+// `initf kind assort K L ncalls <draws> <list>` — the three initialisers of initialization.hpp called directly with
+// a generator that returns the given draws (cyclically), `ncalls` times in a row on the same generator and, for the
+// functors, the same functor object.  kind r / f: `list` is the caller's tensor; kind m: L rows, `list` = row indices.
+struct ScriptGen
+{
+    std::vector<double> d;
+    size_t pos = 0;
+    double operator()()
+    {
+        double x = d.empty() ? 0.0 : d[pos % d.size()];
+        pos++;
+        return x;
+    }
+};
+
+template <class Aff>
+void op_initf_aff(const std::string &kind, size_t K, size_t L, size_t ncalls, ScriptGen &g, Cur &c, Out &o)
+{
+    auto aff = c.flts();
+    Aff Tinit(K, L, aff), T(K, L);
+    initialization::init_symmetric_tensor_random fr;
+    initialization::init_symmetric_tensor_from_initial<Aff> ff;
+    for (size_t i = 0; i < ncalls; i++)
+    {
+        if (kind == "r")
+            fr(Tinit, T, g);
+        else
+            ff(Tinit, T, g);
+        o.dl("t" + std::to_string(i), T.get_data());
+        o.kv("pos" + std::to_string(i), std::to_string(g.pos));
+    }
+}
+
+static void op_initf(Cur &c, Out &o)
+{
+    std::string kind = c.tok();
+    bool assort = c.boolean();
+    size_t K = c.nat(), L = c.nat(), ncalls = c.nat();
+    ScriptGen g;
+    g.d = c.flts();
+    if (kind == "m")
+    {
+        size_t n = c.nat();
+        std::vector<size_t> els;
+        for (size_t i = 0; i < n; i++)
+            els.push_back(c.nat());
+        Matrix<double> mat(L, K);
+        for (size_t i = 0; i < ncalls; i++)
+        {
+            initialization::init_tensor_rows_random(els, mat, g);
+            o.dl("t" + std::to_string(i), mat.get_data());
+            o.kv("pos" + std::to_string(i), std::to_string(g.pos));
+        }
+    }
+    else if (kind == "r" || kind == "f")
+    {
+        if (assort)
+            op_initf_aff<DiagonalTensor<double>>(kind, K, L, ncalls, g, c, o);
+        else
+            op_initf_aff<SymmetricTensor<double>>(kind, K, L, ncalls, g, c, o);
+    }
+    else
+        throw std::logic_error("bad initf kind");
+}
+
 // ------------------------------------------------------------------------------ validate
 
 template <class D, class Aff, class Init>
@@ -1167,6 +1233,8 @@ int main(int argc, char **argv)
                 op_run2(c, o);
             else if (op == "runshared")
                 op_runshared(c, o);
+            else if (op == "initf")
+                op_initf(c, o);
             else if (op == "validate")
                 op_validate(c, o);
             else if (op == "rng")
